@@ -1,4 +1,5 @@
 import GenjaxVerif.Lemmas.GFIReplay
+import GenjaxVerif.Lemmas.GFIArgs
 import GenjaxVerif.Props.GFITest
 /-!
 # C01 — every trace agrees with `assess` on its own choices and arguments
@@ -26,6 +27,13 @@ theorem C01_trace_assess_partial (ds : DistSem) (m : Mode) (p : Prog) (i : In) (
   have := replay ds m p i r h hg
     { c := r.tr.choices, sel := .none, old := none, key := [], args := i.args } rfl rfl rfl
   simp [assess, this, replayed, Except.map]
+
+/-- The same, phrased exactly as the property: with the trace's OWN recorded arguments
+    (`trace.get_args()`), which are the arguments the operation was given (`run_args`). -/
+theorem C01_trace_assess_own_args_partial (ds : DistSem) (m : Mode) (p : Prog) (i : In) (r : Res)
+    (h : run ds m p i = .ok r) (hg : Good r.tr) :
+    assess ds p r.tr.choices r.tr.args = .ok (r.tr.score, r.tr.ret) := by
+  rw [run_args ds m p i r h]; exact C01_trace_assess_partial ds m p i r h hg
 
 /-- Stronger form: `assess` rebuilds exactly the same trace, with weight its score. -/
 theorem C01_assess_rebuilds_trace (ds : DistSem) (m : Mode) (p : Prog) (i : In) (r : Res)
